@@ -91,6 +91,10 @@ def rewrite_sample(ctx, placement, callee, is_method):
             out = visit(tree)
     except Raised as r:
         return ("refused", r.what)
+    except (AttributeError, TypeError, KeyError, IndexError, ValueError) as ex:
+        # the interpreted rewriter fails on this tree the way it would under ast.NodeTransformer (e.g. it hands
+        # something that is no node to `visit`)
+        return ("refused", f"{type(ex).__name__}: {ex}")
     if not isinstance(out, ast.AST):
         raise AnalysisError(f"{rw.key}: the rewriter returns no tree for a whole module")
     ast.fix_missing_locations(out)
